@@ -322,6 +322,16 @@ def contains(eng, st, cont, x, node=None):
         for s, xx in eng.force(st, x):
             yield from contains(eng, s, c, xx, node)
         return
+    if isinstance(c, IterView) and getattr(c, "values_of", None) is not None:
+        m = c.values_of
+        k = z3.Const(fresh_name("k"), m.tk.z3sort())
+        try:
+            xz = to_z3(x, m.tv)
+        except Exception:  # noqa
+            yield st, False
+            return
+        yield st, SBool(z3.Exists([k], z3.And(z3.Select(m.has, k), z3.Select(m.val, k) == xz)))
+        return
     if isinstance(c, (SMap, SSet)):
         try:
             yield st, c.contains(x)
@@ -920,7 +930,10 @@ def container_call(eng, st, target, name, args, kwargs, node=None):
                         yield s1, [((k, c.get(k)) if name == "items" else c.get(k)) for k in ks]
                     else:
                         raise Unsupported("items() of symbolic-size map (use keys + lookup)")
-            yield st, IterView(gen)
+            view = IterView(gen)
+            if name == "values":
+                view.values_of = c     # supports `x in d.values()` on a symbolic map
+            yield st, view
             return
         if name == "__len__":
             if c.keys is None:
